@@ -115,6 +115,8 @@ type Eval struct {
 	prov     map[string]string // interface term loaded from fidRef.file -> the fidRef
 	provGhost map[string]bool  // provenance that is a ghost parameter (may be 0 = none)
 	mapFrom   map[string]string // map term -> field component it was loaded from
+	rootPkg   *ssa.Package
+	logicals  map[string]TV
 }
 
 func NewEval(p *Program) *Eval {
@@ -127,7 +129,39 @@ func (e *Eval) oblige(name, kind string, props []string, reach, goal, clause, wh
 	if len(props) == 0 {
 		return
 	}
-	e.obls = append(e.obls, &Obligation{Name: name, Props: props, Kind: kind, Goal: goal, Reach: reach, Mark: e.c.Mark(), Clause: clause, Where: where})
+	// split (=> A (and c1 .. ck)) and (and c1 .. ck) into one obligation per conjunct
+	parts := splitGoal(goal)
+	if len(parts) == 1 {
+		e.obls = append(e.obls, &Obligation{Name: name, Props: props, Kind: kind, Goal: goal, Reach: reach, Mark: e.c.Mark(), Clause: clause, Where: where})
+		return
+	}
+	for i, g := range parts {
+		e.obls = append(e.obls, &Obligation{Name: fmt.Sprintf("%s.%d", name, i+1), Props: props, Kind: kind, Goal: g, Reach: reach, Mark: e.c.Mark(), Clause: clause, Where: where})
+	}
+}
+
+func splitGoal(g string) []string {
+	if strings.HasPrefix(g, "(and ") {
+		var out []string
+		for _, cj := range splitAnd(g) {
+			out = append(out, splitGoal(cj)...)
+		}
+		return out
+	}
+	if strings.HasPrefix(g, "(=> ") {
+		args := splitAnd("(and " + g[4:])
+		if len(args) == 2 {
+			cons := splitGoal(args[1])
+			if len(cons) > 1 {
+				var out []string
+				for _, cj := range cons {
+					out = append(out, "(=> "+args[0]+" "+cj+")")
+				}
+				return out
+			}
+		}
+	}
+	return []string{g}
 }
 
 func (e *Eval) site(callee string) string {
@@ -812,7 +846,7 @@ func cellLive(comp string, s *State) bool {
 }
 
 func (e *Eval) loopEnv(fr *Frame, ls *loopState, s *State, from *ssa.BasicBlock, header *ssa.BasicBlock) *Env {
-	env := e.newEnv(fr.fn.Pkg, s, e.entry)
+	env := e.newEnv(e.pkgOf(fr), s, e.entry)
 	env.loopPre = ls.pre
 	e.bindParams(env, fr)
 	e.bindCells(env, fr)
@@ -1032,4 +1066,11 @@ func (e *Eval) frameFormula(comp, term string, goal bool) string {
 		return body
 	}
 	return fmt.Sprintf("(forall ((x Int)) (! %s :pattern ((select %s x))))", body, term)
+}
+
+func (e *Eval) pkgOf(fr *Frame) *ssa.Package {
+	if fr.fn != nil && fr.fn.Pkg != nil {
+		return fr.fn.Pkg
+	}
+	return e.rootPkg
 }
